@@ -177,6 +177,17 @@ def action_grammars():
         NT("IV", [AA([N("k", Tm("n"))], FA(75, "k"))], inline=True, ty="u8"),
     ], tags=["inlined nonterminal whose value is unused", "empty unit-typed inlined production with an action", "fallible gate"])))
 
+    # --- @R / @L directly around a MULTI-symbol inlined item (the span of an inlined item is first-child start .. last-child end)
+    gs.append(finalize(Grammar("act_loc2", terms("n:u8 + ; ("), [
+        NT("S", [
+            AA([N("p", Nt("IP")), N("e", R), ";"], UA(90, "p", ("loc", "e"))),
+            AA(["(", N("s", L), N("p", Nt("IP")), N("e", R)], UA(91, ("loc", "s"), "p", ("loc", "e"))),
+            AA([";", N("q", Nt("IW")), N("e", R), "+"], UA(92, "q", ("loc", "e"))),
+        ], pub=True, ty="u8"),
+        NT("IP", [AA([N("a", Tm("n")), "+", N("b", Tm("n"))], UA(93, "a", "b"))], inline=True, ty="u8"),
+        NT("IW", [AA([N("x", Nt("IP"))], UA(94, "x"))], inline=True, ty="u8"),
+    ], tags=["@R behind a multi-symbol inlined item", "nested inlined item span"])))
+
     # --- repetition operators and groups: Vec in input order, Option, selected symbol of a group (C13 values)
     gs.append(finalize(Grammar("act_reps", terms("n:u8 , ; ( +"), [
         NT("S", [
